@@ -88,7 +88,7 @@ theorem Sys.run_ev_le (s : Sys H K B V) (ops : List (Op H K B V)) : s.sc.evictio
 
 theorem BC.get_correct {T : Tree K B V} (sc : SC K B V) (bc : BC K B V) (k : K)
     (hI : Inv sc T none) (hev : (bc.get sc k).1.evictions = sc.evictions) :
-    Inv (bc.get sc k).1 T none ∧ ∀ v, (bc.get sc k).2 = some v → Answer T [bc.cache] bc.prev k (.val v) := by
+    Inv (bc.get sc k).1 T none ∧ ∀ v, (bc.get sc k).2 = some v → Answer T [bc.cache] bc.base k (.val v) := by
   unfold BC.get at hev ⊢
   unfold Answer pendLookup pendLookup
   cases he : alookup bc.cache k with
@@ -97,7 +97,7 @@ theorem BC.get_correct {T : Tree K B V} (sc : SC K B V) (bc : BC K B V) (k : K)
     exact ⟨hI, fun v hv => (Entry.result_val hv).symm⟩
   | none =>
     simp only [he] at hev ⊢
-    exact SC.get_correct sc k bc.prev hI hev
+    exact SC.get_correct sc k bc.base hI hev
 
 theorem alookup_aset' {α β : Type} [DecidableEq α] (l : List (α × β)) (k k' : α) (v : β) (x : β)
     (h : alookup (aset l k v) k' = some x) : (k = k' ∧ x = v) ∨ (k ≠ k' ∧ alookup l k' = some x) := by
@@ -120,12 +120,12 @@ theorem SysInv.set_sc {s : Sys H K B V} {T T' : Tree K B V} (hS : SysInv s T) (s
 theorem Sys.step_inv {T : Tree K B V} (s : Sys H K B V) (op : Op H K B V) (hS : SysInv s T)
     (hev : (s.step op).1.sc.evictions = s.sc.evictions) : SysInv (s.step op).1 (s.treeStep T op) := by
   cases op with
-  | blk h hash prev => exact hS.set_bc h ⟨hash, prev, []⟩ (by simp) s.tcs
+  | blk h hash prev => exact hS.set_bc h ⟨hash, prev, [], false⟩ (by simp) s.tcs
   | bhash h hash =>
     simp only [Sys.step, Sys.treeStep]
     cases hb : alookup s.bcs h with
     | none => exact hS
-    | some bc => exact hS.set_bc h ⟨hash, bc.prev, bc.cache⟩ (hS.nodup h bc hb) s.tcs
+    | some bc => exact hS.set_bc h ⟨hash, bc.prev, bc.cache, bc.committed⟩ (hS.nodup h bc hb) s.tcs
   | txn t h =>
     simp only [Sys.step, Sys.treeStep]
     cases hb : alookup s.bcs h with
@@ -234,7 +234,7 @@ theorem answer_skip {T : Tree K B V} {m : List (K × Entry V)} {rest : List (Lis
   rw [he]
 
 theorem Sys.step_ok {T : Tree K B V} (s : Sys H K B V) (op : Op H K B V) (hS : SysInv s T)
-    (hev : (s.step op).1.sc.evictions = s.sc.evictions) : OpOK s T false op := by
+    (hev : (s.step op).1.sc.evictions = s.sc.evictions) : OpOK s T op := by
   intro pend b k hctx
   cases op with
   | tget t k' =>
@@ -250,7 +250,7 @@ theorem Sys.step_ok {T : Tree K B V} (s : Sys H K B V) (op : Op H K B V) (hS : S
         cases h4 : alookup s.bcs h with
         | none => simp [h4] at hctx
         | some bc =>
-          simp only [h4, Bool.false_and, Bool.false_eq_true, if_false, Option.some.injEq, Prod.mk.injEq] at hctx hev ⊢
+          simp only [h4, Option.some.injEq, Prod.mk.injEq] at hctx hev ⊢
           obtain ⟨rfl, rfl, rfl⟩ := hctx
           cases h2 : alookup tc.cache k' with
           | some e => simp only; exact okOfHits (fun v hv => answer_pending h2 v hv)
@@ -278,7 +278,7 @@ theorem Sys.step_ok {T : Tree K B V} (s : Sys H K B V) (op : Op H K B V) (hS : S
     cases h4 : alookup s.bcs h with
     | none => simp [h4] at hctx
     | some bc =>
-      simp only [h4, Bool.false_and, Bool.false_eq_true, if_false, Option.some.injEq, Prod.mk.injEq] at hctx hev ⊢
+      simp only [h4, Option.some.injEq, Prod.mk.injEq] at hctx hev ⊢
       obtain ⟨rfl, rfl, rfl⟩ := hctx
       exact okOfHits (fun v hv => (BC.get_correct s.sc bc k' hS.inv hev).2 v hv)
   | qget qb k' =>
@@ -308,7 +308,7 @@ theorem Sys.step_ok {T : Tree K B V} (s : Sys H K B V) (op : Op H K B V) (hS : S
   | bcommit _ => simp [Sys.ctx] at hctx
 
 theorem Sys.run_ok {T : Tree K B V} (s : Sys H K B V) (ops : List (Op H K B V)) (hS : SysInv s T)
-    (hne : NoEviction s ops) : AllOK false s T ops := by
+    (hne : NoEviction s ops) : AllOK s T ops := by
   induction ops generalizing s T with
   | nil => trivial
   | cons op ops ih =>
@@ -335,24 +335,12 @@ theorem Sys.run_append (s : Sys H K B V) (pre post : List (Op H K B V)) :
   | nil => rfl
   | cons op pre ih => simp only [List.cons_append, Sys.run]; exact ih _
 
-theorem AllOK.nth {lit : Bool} {s : Sys H K B V} {T : Tree K B V} (pre : List (Op H K B V)) (op : Op H K B V)
-    (post : List (Op H K B V)) (h : AllOK lit s T (pre ++ op :: post)) :
-    OpOK (s.run pre).1 (s.treeRun T pre) lit op := by
+theorem AllOK.nth {s : Sys H K B V} {T : Tree K B V} (pre : List (Op H K B V)) (op : Op H K B V)
+    (post : List (Op H K B V)) (h : AllOK s T (pre ++ op :: post)) :
+    OpOK (s.run pre).1 (s.treeRun T pre) op := by
   induction pre generalizing s T with
   | nil => exact h.1
   | cons o pre ih => simp only [Sys.run, Sys.treeRun]; exact ih h.2
-
-theorem AllOK.of_lifecycle {s : Sys H K B V} {T : Tree K B V} {ops : List (Op H K B V)}
-    (h : AllOK false s T ops) (hl : Lifecycle s T ops) : AllOK true s T ops := by
-  induction ops generalizing s T with
-  | nil => trivial
-  | cons op ops ih =>
-    obtain ⟨h1, h2⟩ := h
-    obtain ⟨l1, l2⟩ := hl
-    refine ⟨?_, ih h2 l2⟩
-    intro pend b k hc
-    rw [l1] at hc
-    exact h1 pend b k hc
 
 theorem SysInv.init (capK maxDepth : Nat) : SysInv (Sys.new capK maxDepth : Sys H K B V) [] := by
   refine ⟨⟨fun k b e h => ?_, fun b p h => ?_, fun b x h => ?_⟩, fun h bc hb => ?_⟩
